@@ -1408,8 +1408,13 @@ class PGPKey(Armorable, ParentRef, PGPObject):
     def expires_at(self):
         """A :py:obj:`~datetime.datetime` object of when this key is to be considered expired, if any. Otherwise, ``None``"""
         expires = None
-        for sig in iter(uid.selfsig for uid in self.userids if uid.selfsig):
-            if sig.key_expiration is not None:
+        for uid in self.userids:
+            # the most recent self-certification of this identity; a revocation of the identity carries no
+            # validity period and does not lift the one the key was given
+            sig = next((s for s in reversed(uid._signatures)
+                        if s.type != SignatureType.CertRevocation
+                        and self.fingerprint == (s.signer_fingerprint or s.signer)), None)
+            if sig is not None and sig.key_expiration is not None:
                 expires = sig.key_expiration
 
         if expires is not None:
